@@ -10,6 +10,8 @@ from tcss.report import where
 RB = "actix_web::response::builder::HttpResponseBuilder::"
 TO_STRING = "alloc::string::ToString::to_string"
 MAP_ERR = "core::result::Result::<T, E>::map_err"
+# pulling the next chunk of a byte stream: Option<Result<Bytes,E>> resp. Result<Option<Bytes>,E> (same three "ok" layers)
+STREAM_PULL = {"futures_util::stream::stream::StreamExt::next", "futures_util::stream::try_stream::TryStreamExt::try_next"}
 SERVER_ERROR_TO_ACTIX = WD.SERVER + "::api::server_error_to_actix"
 FAILURE_TO_ISE = WD.SERVER + "::api::failure_to_ise"
 
@@ -94,12 +96,54 @@ def server_error_variants(W, key, depth=0):
     return out
 
 
+def value_statuses(W, body, e, val, depth=0):
+    """Statuses an actix error VALUE term may carry under valuation val (the error built on a desugared
+    `map_err` / explicit `Err(..)` arm): constructor call, workspace mapping function (narrowed by the variant of its
+    argument when the valuation knows it), or a local with several definitions (union over those that may reach)."""
+    if depth > 4:
+        return None
+    if e[0] == "call" and e[1] == SERVER_ERROR_TO_ACTIX and e[3]:
+        r = fn_statuses(W, SERVER_ERROR_TO_ACTIX, by_variant=True)
+        if r is None:
+            return None
+        arg = e[3][0]
+        vs = val.get(("VARIANT", arg))
+        if not vs and arg[0] == "err":
+            inner = P.strip_branch(arg[1])
+            vs = val.get(("VARIANT", ("err", inner)))
+            if not vs and inner[0] == "call" and inner[1] in W.prog.bodies:
+                vs = server_error_variants(W, inner[1])
+        if vs and r[1] and all(v in r[1] for v in vs):
+            o = set()
+            for v in vs:
+                o |= r[1][v]
+            return o
+        return r[0]
+    if e[0] == "phi":
+        pv = W.prov(body)
+        sel = val.get(("def", e[1]))
+        out = set()
+        for site, t in pv.phi_alternatives(e[1]):
+            if sel is not None and site not in sel:
+                continue
+            st = value_statuses(W, body, t, val, depth + 1)
+            if st is None:
+                return None
+            out |= st
+        return out or None
+    return ctor_status(W, e)
+
+
 def error_statuses(W, body, eterm, val):
-    """Statuses of an `err(..)` payload that is propagated with `?` (term under from_residual)."""
+    """Statuses of the error that is propagated with `?` (term under from_residual): either the error value itself
+    (desugared combinators) or the `err(..)` payload of a Result-valued term."""
     t = eterm
     if t[0] != "err":
-        return None
+        return value_statuses(W, body, t, val)
     x = t[1]
+    if x[0] == "call" and x[1] == S.FROM_RESIDUAL and x[3]:
+        # the error of a Result that was itself built by `?` (a spliced helper's early return): the residual's error
+        return error_statuses(W, body, x[3][0], val)
     if x[0] == "call" and x[1] == MAP_ERR and len(x[3]) == 2:
         fk = fn_value_key(W, x[3][1])
         if fk is None:
@@ -147,7 +191,7 @@ def error_statuses(W, body, eterm, val):
                 return None
             out |= st
         return out
-    if "Future::poll" in P.show(x) and "StreamExt::next" in P.show(x):
+    if "Future::poll" in P.show(x) and ("StreamExt::next" in P.show(x) or "TryStreamExt::try_next" in P.show(x)):
         return {"PayloadError(4xx, TB-actix)"}
     ac = awaited_call(x)
     if ac is not None and (ac[1] + "::{closure#0}") in W.prog.bodies:
@@ -208,7 +252,7 @@ def builder_chain(W, body, g, term, exit_site, val):
                     res["unknown"].append("mutator %s only on some paths to this outcome" % callee)
                     continue
                 # helper-computed header values are bound in the valuation; other sub-terms stay as extracted
-                args = [g.resolve_vals(a_, val) for a_ in pv.arg_terms(bb)]
+                args = [g.resolve_phis(a_, val) for a_ in pv.arg_terms(bb)]
                 _apply_builder_call(res, callee, args)
             t = t[3]
             continue
@@ -296,20 +340,12 @@ def handler_outcomes(W, module):
             if mm is not None:
                 o.kind = "err"
                 e = mm["e"]
-                if e[0] == "call" and e[1] == SERVER_ERROR_TO_ACTIX:
-                    r = fn_statuses(W, SERVER_ERROR_TO_ACTIX, by_variant=True)
-                    # atoms are keyed by the unresolved term (phi resolution may have rewritten sub-terms)
-                    mraw = m(pat.adt("Result", "Err", ("0", V("e"))), term)
-                    eraw = mraw["e"] if mraw is not None and mraw["e"][0] == "call" else e
-                    vs = val.get(("VARIANT", eraw[3][0])) or val.get(("VARIANT", e[3][0]))
-                    if r and vs and all(v in r[1] for v in vs):
-                        o.status = set()
-                        for v in vs:
-                            o.status |= r[1][v]
-                    else:
-                        o.status = r[0] if r else None
-                else:
-                    o.status = ctor_status(W, e)
+                # atoms are keyed by the unresolved term (phi resolution may have rewritten sub-terms)
+                mraw = m(pat.adt("Result", "Err", ("0", V("e"))), term)
+                eraw = mraw["e"] if mraw is not None and mraw["e"][0] == "call" and mraw["e"][1] == SERVER_ERROR_TO_ACTIX else None
+                o.status = value_statuses(W, body, eraw, val) if eraw is not None else None
+                if o.status is None or (eraw is not None and val.get(("VARIANT", eraw[3][0])) is None):
+                    o.status = value_statuses(W, body, e, val)
             elif mr is not None:
                 o.kind = "propagated"
                 o.status = error_statuses(W, body, mr["e"], val)
